@@ -118,6 +118,23 @@ class BundleInstance:
     def __repr__(self):
         return f"{self.__class__.__name__}(name={self.name} of={self.of})"
 
+    def __copy__(self) -> "BundleInstance":
+        """Bundle-instance copying implementation
+        Keeps "public" fields such as name and bundle-type,
+        while dropping "per-module" fields such as the connected ports and the references handed out."""
+        rv = BundleInstance(
+            name=self.name,
+            of=self.of,
+            port=self.port,
+            flipped=self.flipped,
+            role=self.role,
+            src=self.src,
+            dest=self.dest,
+            desc=self.desc,
+        )
+        rv.props.inner.update(self.props.inner)
+        return rv
+
     def __rmul__(self, num: int) -> List["Self"]:
         """# Right multiplication. Creates `num` copies of ourselves."""
         if not isinstance(num, int):
